@@ -38,7 +38,7 @@ PLAN = {
         "exhaustive_note": "all function messages with <=3 linear terms / <=2 quadratic entries (+optional linear part) / <=2 monomials of length <=3 over ids {1,2}, coefficients {-1,0,2,1/2}, x 9 states (6 complete, 3 missing a variable) x 2 entry points",
     },
     "C02": {
-        "mc": [MC_POLY], "lift_every": 17,
+        "mc": [MC_POLY], "lift_every": 17, "rescale_every": 3,
         "gen": [G("arith", "Gen_Fn_Arith.cfg"), G("arithdeep", "Gen_Fn_ArithDeep.cfg", tier="thorough"), G("fninfo", "Gen_Fn_FnInfo.cfg"),
                 G("fmt", "Gen_Fn_Fmt.cfg"), G("ctor", "Gen_Fn_Ctor.cfg")],
         "drive": [D("arith", 3000, 300000)],
@@ -47,15 +47,15 @@ PLAN = {
     "C03": {
         "mc": [MC_POLY, MC_INST], "lift_every": 17,
         "gen": [G("partial", "Gen_Fn_Partial.cfg")],
-        "drive": [D("partial_fn", 3000, 200000), D("commute", 800, 40000)],
+        "drive": [D("partial_fn", 3000, 200000), D("commute", 800, 40000), D("mixed", 300, 15000)],
     },
     "C04": {
         "mc": [MC_POLY, MC_INST, MC_EVALDEPS], "lift_every": 17,
         "gen": [G("subst", "Gen_Fn_Subst.cfg")],
-        "drive": [D("subst_fn", 2000, 100000), D("inst_subst", 800, 40000), D("deps_order", 300, 5000), D("chain_encode", 300, 10000)],
+        "drive": [D("subst_fn", 2000, 100000), D("inst_subst", 800, 40000), D("deps_order", 300, 5000), D("chain_encode", 300, 10000), D("mixed", 300, 15000)],
     },
     "C05": {
-        "mc": [MC_INST], "gen": [GI("evaluate", "Evaluate")], "drive": [D("evaluate", 2000, 100000)],
+        "mc": [MC_INST], "gen": [GI("evaluate", "Evaluate")], "drive": [D("evaluate", 2000, 100000), D("mixed", 300, 15000)],
         "exhaustive_note": "tolerance grid (67u/68u around 1e-6, 6u/7u around 1e-7, u = 2^-26) and the exact floats +-1e-6/+-1e-7; every kind x bound shape of an irrelevant variable; explicit binary bounds; chained dependents in both map orders",
     },
     "C06": {
@@ -74,33 +74,33 @@ PLAN = {
     "C08": {
         "mc": [M("validate", "MC_Validate.tla", "MC_Validate.cfg")],
         "gen": [G("faults", "Gen_Validate.cfg", module="Gen_Validate.tla")],
-        "drive": [D("validate", 500, 20000)],
+        "drive": [D("validate", 500, 20000), D("mixed", 300, 15000)],
         "exhaustive_note": "every single fault (quick) / every ordered pair of faults (thorough) of two base instances: duplicate ids (vars; constraints within and across lists), undefined ids at each position and in each function shape, each required field unset, each bound shape, repeated ids in hints",
     },
     "C09": {
-        "mc": [MC_INST], "gen": [GI("penalty", "Penalty")], "drive": [D("penalty", 1000, 50000)],
+        "mc": [MC_INST], "gen": [GI("penalty", "Penalty")], "drive": [D("penalty", 1000, 50000), D("mixed", 300, 15000)],
         "exhaustive_note": "2 senses x 3 constraint lists (empty / one / three in non-ascending id order, one without function) x {no, one} previously removed constraint, an unused variable, both methods",
     },
     "C10": {"mc": [MC_INST], "gen": [GI("penalty", "Penalty")], "drive": [D("with_parameters", 1500, 60000)]},
     "C11": {
-        "mc": [MC_POLY], "gen": [GI("qubo", "Qubo")], "drive": [D("pubo", 1000, 40000)],
+        "mc": [MC_POLY], "gen": [GI("qubo", "Qubo")], "drive": [D("pubo", 1000, 40000), D("mixed", 300, 15000)],
         "exhaustive_note": "all small binary objectives of the family BinObjs (every representation, powers, three distinct variables) x {pubo, qubo} x {ok, maximise, constrained, non-binary}",
     },
     "C12": {
-        "mc": [M("logencode", "MC_LogEncode.tla", "MC_LogEncode.cfg")], "gen": [GI("logencode", "LogEncode")], "drive": [D("log_encode", 1000, 50000)],
+        "mc": [M("logencode", "MC_LogEncode.tla", "MC_LogEncode.cfg")], "gen": [GI("logencode", "LogEncode")], "drive": [D("log_encode", 1000, 50000), D("mixed", 300, 15000)],
         "exhaustive_note": "every (l,u) in halves in [-8,8]; quarters and tenths with independent fractional parts; every width 1..600 (quick) / 4096 (thorough) at 3 offsets up to 2^20; every error condition",
     },
     "C13": {
-        "mc": [M("slack", "MC_Slack.tla", "MC_Slack.cfg", workers=12)], "gen": [GI("slack", "Slack")], "drive": [D("slack", 1000, 40000)],
+        "mc": [M("slack", "MC_Slack.tla", "MC_Slack.cfg", workers=12)], "gen": [GI("slack", "Slack")], "drive": [D("slack", 1000, 40000), D("mixed", 300, 15000)],
         "exhaustive_note": "every f of the family SlackF (linear and bilinear, coefficients {-2,-1,1,1/2,-1/3}) x 3x3 boxes x both conversions x 2 limits, every lattice point and slack value; each rejection condition",
     },
     "C14": {
-        "mc": [MC_INST], "gen": [GI("histories", "Histories")], "drive": [D("relax_restore", 600, 30000)],
+        "mc": [MC_INST], "gen": [GI("histories", "Histories")], "drive": [D("relax_restore", 600, 30000), D("mixed", 300, 15000)],
         "exhaustive_note": "all relax/restore histories of length <= 3 (quick) / 4 (thorough) over 8 operations (known, unknown, wrong-list ids, empty reason) on an instance with 3 constraints, each followed by an evaluation",
     },
     "C15": {
         "mc": [MC_INST, {"name": "best", "module": "MC_Best.tla", "cfg_quick": "MC_Best.cfg"}], "gen": [GI("best", "Best")],
-        "drive": [D("as_min", 500, 20000), D("best", 1500, 60000)],
+        "drive": [D("as_min", 500, 20000), D("best", 1500, 60000), D("mixed", 300, 15000)],
         "exhaustive_note": "all sample sets over <= 3 ids with objectives {0,1}, every feasibility pattern, both senses, current and legacy layout, objectives stored per id or grouped by value, direct and through encode/decode",
     },
     "C16": {
